@@ -16,6 +16,13 @@ from . import c03
 ENERGY = 50000.0
 
 
+def replay_any(rec, ctx):
+    if rec.get("part") == "composition":
+        from . import c05_composition
+        return c05_composition.replay(rec, ctx)
+    return replay(rec, ctx)
+
+
 def replay(rec, ctx):
     from raysect.core import Point3D, Vector3D
     from raysect.optical import Spectrum
@@ -107,7 +114,9 @@ def replay(rec, ctx):
 
 def run(v):
     c03.run_models(v, "mbt.c05", '{"bcx", "bes"}')
-    v.assumptions += ["species at rest and beam along z: the interaction energy equals the beam energy (non-collinear flows involve a square root and are not enumerated)",
+    from . import c05_composition
+    c05_composition.run_part(v)
+    v.assumptions += ["flowing species use Pythagorean relative velocities (exact interaction-energy fractions), in a beam frame rotated against the plasma frame",
                       "constant beam density from an attenuator stub; two beam metastables; neutrals take part with charge 0 (their equivalent density argument is infinite)"]
     return v.finish(rule="one case = one Emission.tla configuration (beam model, ion composition, beam density) executed through BeamModel.emission; distinct = distinct configurations")
 
@@ -120,6 +129,7 @@ def selftest():
            "species": {"d0": ["d", 0, 1], "d1": ["d", 1, 1], "he1": ["he", 1, 2], "c5": ["c", 5, 6], "c6": ["c", 6, 6]}}
     good = replay(rec, None)
     bad = replay(dict(rec, beam_total=[100, 1]), None)
-    ok = not good and bool(bad)
+    from . import c05_composition
+    ok = not good and bool(bad) and c05_composition.selftest()
     print("C05 selftest:", "ok" if ok else "FAILED", good[:1], bad[:1])
     return 0 if ok else 2
